@@ -476,7 +476,7 @@ func exec(script []byte, c cfg, o execOpts) (res result) {
 			} else if atEnd {
 				site = "at-end"
 			}
-			if res.Cyclic {
+			if res.Cyclic && !c.UseRun && !atEnd {
 				site += "/after-cycle"
 			}
 			res.F = &finding{Kind: kind, Step: res.Steps, IP: hookIP, Op: hookOp.String(), Msg: msg, Site: site}
